@@ -794,11 +794,19 @@ package larking
 //@ spec OffersOk(m) = m.opts.codecs != nil && maphas(m.opts.codecs, "application/json") && mapval(m.opts.codecs, "application/json") != nil
 //@      && (forall x :: {at(m.opts.contentTypeOffers, x)} off(m.opts.contentTypeOffers) <= x && x < off(m.opts.contentTypeOffers) + len(m.opts.contentTypeOffers)
 //@            ==> maphas(m.opts.codecs, at(m.opts.contentTypeOffers, x)) && mapval(m.opts.codecs, at(m.opts.contentTypeOffers, x)) != nil)
+// (a Twirp client gets the Twirp spelling of the code: "canceled" and "dataloss",
+// not the lower-cased gRPC names "cancelled" and "data_loss")
+//@ spec TwirpNameOK(c, n) = (c == 1 ==> n == "canceled") && (c == 2 ==> n == "unknown") && (c == 3 ==> n == "invalid_argument") && (c == 4 ==> n == "deadline_exceeded")
+//@      && (c == 5 ==> n == "not_found") && (c == 6 ==> n == "already_exists") && (c == 7 ==> n == "permission_denied") && (c == 8 ==> n == "resource_exhausted")
+//@      && (c == 9 ==> n == "failed_precondition") && (c == 10 ==> n == "aborted") && (c == 11 ==> n == "out_of_range") && (c == 12 ==> n == "unimplemented")
+//@      && (c == 13 ==> n == "internal") && (c == 14 ==> n == "unavailable") && (c == 15 ==> n == "dataloss") && (c == 16 ==> n == "unauthenticated") && len(n) > 0
 //@ det StatusCodeOf "(*status.Status).Code" int
 // (the HTTP status written for an error is the mapped status of its code, on both
 // the Twirp and the negotiated path)
 //@ func (*Mux).encError serves C05 C09 partial panic ghost nil[c.Marshal
 //@   requires m != nil && w != nil && r != nil
+//@   assert at "terr := &twirpError{" [twirp-code-name C05] TwirpNameOK(StatusCodeOf(s), codeStr)
+//@   witness verifWitnessTwirpCodes for twirp-code-name
 //@   assert atcall `w.WriteHeader(` [error-status-is-the-mapped-code C05] (StatusCodeOf(s) <= 16 ==> arg0 == HTTPOf(StatusCodeOf(s))) && (StatusCodeOf(s) > 16 ==> arg0 == 500)
 //@   requires [registry] OffersOk(m)
 //@   witness verifWitnessEncError
